@@ -253,6 +253,17 @@ impl<'a> Cx<'a> {
         self.slot.loops.iter().find(|l| l.0 == ord).map(|l| (l.1.clone(), l.2.clone()))
     }
 
+    /// `loop_before KIND#k`: the hint goes in front of the loop statement (set-up of ghost state for the invariant)
+    fn hint_before_loop(&mut self, at: usize) {
+        let (kind, k) = self.kloops_seen.last().cloned().unwrap_or(("".into(), 0));
+        let key = format!("loop_before {}#{}", kind, k);
+        let hs: Vec<(String, String)> = self.slot.hints.iter().filter(|h| h.0 == key).cloned().collect();
+        for (w, t) in hs {
+            self.let_hints_used.push(w);
+            self.insert(at, format!("{} ", t));
+        }
+    }
+
     fn hint_for_loop(&mut self, ord: usize, body: &syn::Block) {
         let (kind, k) = self.kloops_seen.last().cloned().unwrap_or(("".into(), 0));
         let start_key = format!("loop_start {}", ord);
@@ -380,6 +391,12 @@ impl<'a, 'ast> Visit<'ast> for Cx<'a> {
                 let r = id.span().byte_range();
                 self.replace(r.clone(), format!("{}__v", name));
                 self.note("N14", r.start, &name, &format!("{}__v", name));
+            } else if name == "self" {
+                // N9: in a lifted arm / statement range / closure the receiver becomes the parameter named by `//@self NAME`
+                if let Some(to) = &self.slot.self_name {
+                    let r = id.span().byte_range();
+                    self.replace(r.clone(), to.clone());
+                }
             }
         }
         syn::visit::visit_expr_path(self, p);
@@ -717,6 +734,7 @@ impl<'a, 'ast> Visit<'ast> for Cx<'a> {
             let open = w.body.brace_token.span.open().byte_range();
             self.insert(open.start, format!("{} ", clauses));
         }
+        self.hint_before_loop(w.span().byte_range().start);
         self.hint_for_loop(ord, &w.body);
         let __lbl = self.kloops_seen.last().map(|(k, n)| format!("{}#{}", k, n)).unwrap_or_default();
         self.loop_stack.push((__lbl, 0));
@@ -734,6 +752,7 @@ impl<'a, 'ast> Visit<'ast> for Cx<'a> {
             let open = l.body.brace_token.span.open().byte_range();
             self.insert(open.start, format!("{} ", clauses));
         }
+        self.hint_before_loop(l.span().byte_range().start);
         self.hint_for_loop(ord, &l.body);
         let __lbl = self.kloops_seen.last().map(|(k, n)| format!("{}#{}", k, n)).unwrap_or_default();
         self.loop_stack.push((__lbl, 0));
@@ -1261,12 +1280,28 @@ pub fn rewrite_body(slot: &SlotSpec, found: &Found, retarget: &[(String, String)
             if !cx.let_hints_used.contains(w) {
                 bail!("lost anchor: hint `{}`: no such let binding", w);
             }
-        } else if w.starts_with("loop_start ") || w.starts_with("loop_end ") {
+        } else if w.starts_with("loop_start ") || w.starts_with("loop_end ") || w.starts_with("loop_before ") {
             if !cx.let_hints_used.contains(w) {
                 bail!("lost anchor: hint `{}` but the body has no such loop ({} loops)", w, cx.loops_seen.len());
             }
         } else {
             bail!("unknown hint position `{}`", w);
+        }
+    }
+    // N9: a lifted arm whose value is the payload of what the enclosing function returns (`let res = match .. {arm}; Some(res)`
+    // next to `return Some(..)` inside the arm): the tail expression E becomes F(E), as the template says
+    if let Some(fw) = &slot.wrap_tail {
+        if found.lifted.is_none() {
+            bail!("wrap_tail on a slot that is not lifted");
+        }
+        match block.stmts.last() {
+            Some(syn::Stmt::Expr(e, None)) => {
+                let r = e.span().byte_range();
+                cx.insert(r.start, format!("{}(", fw));
+                cx.insert(r.end, ")");
+                cx.log.push(json!({"rule": "N9", "line": found.item_line_end, "before": "", "after": format!("tail expression wrapped in {}(..)", fw)}));
+            }
+            _ => bail!("wrap_tail: the lifted body has no tail expression"),
         }
     }
     if let Some(ret) = &slot.lift_return {
